@@ -81,10 +81,10 @@ func (t *vfServeTask) Ready() <-chan struct{} {
 }
 
 type vfSession struct {
-	ifi    string
-	cancel context.CancelFunc
-	done   chan struct{}
-	watchC chan netstate.Change
+	ifi     string
+	cancel  context.CancelFunc
+	done    chan struct{}
+	watchC  chan netstate.Change
 	wclosed bool
 }
 
